@@ -119,6 +119,19 @@ def run(ctx):
             if sig in ("own:handler-abort", "own:closed-unexpectedly", "own:owner-lost", "own:observer-lost"):
                 res.findings.append(Finding("c05:" + sig, detail, {"engine": "own"}))
     res.extra["registration_interleavings"] = sum(o["cases"] for o in oouts)
+    # a peer that stops reading while it is owed a long reply must not stall anybody else (W8 of the storm engine)
+    from .. import storm
+    sjobs = [(binary, hooks, s, 0, None, None, 3 if ctx.quick else 20, ctx.quick, ["stall"]) for s in ctx.seeds(4, "c05stall")]
+    with multiprocessing.Pool(4) as pool:
+        souts = pool.map(storm.worker, sjobs)
+    for o in souts:
+        res.evaluations += o["rounds"]
+        res.extra["stalled_reader_rounds"] = res.extra.get("stalled_reader_rounds", 0) + o["rounds"]
+        for sig, detail in o["findings"]:
+            res.findings.append(Finding("c05:" + sig, detail, {"engine": "storm"}))
+        if o["inconclusive"]:
+            res.inconclusive += 1
+            res.inconclusive_notes.append(o["inconclusive"])
     res.rule = ("grammar + mutation fuzz: every verb x arity 0..max+2 x parameter shape classes (existing / non-existing / own "
                 "/ duplicated names, empty, 1 byte, 500 bytes, multi-byte, invalid UTF-8, over-long, wildcard-heavy masks, masks "
                 "with literal runs longer than any subject, numeric extremes, sign-switching mode strings with missing/excess "
